@@ -54,7 +54,7 @@ class PureCheck:
     _design_failure = None
 
     def _design(self, tier, wd):
-        runs = self.design_runs(tier)
+        runs = self.design_runs(tier) if not common.LIGHT else []
         res = []
         for k, r in enumerate(runs):
             out = common.run_tlc(r["module"], r["cfg"], wd / f"design{k}", workers=r.get("workers", 8),
@@ -67,20 +67,28 @@ class PureCheck:
 
     def collect(self, tier):
         r = common.rng(self.pid)
-        inputs = list(self.inputs(tier, r))
+        inputs = list(self.inputs(tier if not common.LIGHT else "quick", r))
         if self.warm_every:
             # the same operation on operands that were looked at before (memo interactions): every k-th input again
             # (chosen pseudo-randomly, not with a fixed stride: generators are periodic and a stride can miss a whole
             # family of inputs)
             step = self.warm_every if tier == "quick" else max(2, self.warm_every - 1)
             wr = common.rng(self.pid + ":warm")
-            inputs += [dict(inp, warm=wr.randrange(1, 64)) for inp in inputs if wr.random() * step < 1]
+            inputs += [dict(inp, warm=wr.randrange(1, 256)) for inp in inputs if wr.random() * step < 1]
+        if common.LIGHT and len(inputs) > 2500:
+            lr = common.rng(self.pid + ":light")
+            inputs = lr.sample(inputs, 2500)
         events = [self._execute(inp) for inp in inputs]
         return inputs, events
 
     def _execute(self, inp):
         import enc
         enc.WARM = inp.get("warm", 0) if isinstance(inp, dict) else 0
+        if enc.WARM & 64:
+            import zlib
+            import fmtlib
+            fmtlib.CUT_SEED = zlib.crc32(json.dumps(inp, sort_keys=True, default=str).encode())
+            fmtlib._CUTS[0] = 0
         try:
             return self.execute(inp)
         finally:
